@@ -113,6 +113,7 @@ def gen_soils(rnd, thorough):
         {"reader": "txt", "hs": [(2, 5, None, 10), (9, 1, None, 60), (20, 4, None, 95)], "why": "classes 5/1/4, stones up to 95 %"},
         {"reader": "txt", "hs": [(4, 2, None, 0), (16, 5, None, 0)], "why": "class 5 subsoil"},
         {"reader": "csv", "hs": [(3, 1, "0.3", 0), (20, 3, None, 0)], "why": "F17: measured density of an organic topsoil"},
+        {"reader": "csv", "hs": [(3, 2, "1.41", 0), (20, 4, None, 20)], "why": "groundwater inside the profile (soil file level 8 dm)", "gw": "08"},
     ]
     for k in range(40 if thorough else 3):
         reader = "csv" if k % 2 == 0 else "txt"
@@ -143,7 +144,7 @@ def write_soils(ex, soils):
                 if so["reader"] == "csv":
                     # SID,C_org,Texture,LayerDepth,BulkDensityClass,BulkDensity,Stone,C/N,C/S,RootDepth,NumberHorizon,FC,WP,PV,Sand,Silt,Clay,DrainageDepth,Drainage%,GW
                     if k == 0:
-                        fc.write("%s,0.70,SL3,%02d,%d,%s,%02d,10,00,05,%02d,20,09,40,78,13,09,20,00,99\n" % (so["sid"], u, c, m or "", st, nh))
+                        fc.write("%s,0.70,SL3,%02d,%d,%s,%02d,10,00,05,%02d,20,09,40,78,13,09,20,00,%s\n" % (so["sid"], u, c, m or "", st, nh, so.get("gw", "99")))
                     else:
                         fc.write("%s,0.31,SL3,%02d,%d,%s,%02d,10,00,,,18,09,40,77,13,10,20,00,   \n" % (so["sid"], u, c, m or "", st))
                 else:
@@ -180,8 +181,16 @@ def write_weather(ex, rnd):
                     for j in range(st, min(st + ln_, len(rows))):
                         rows[j][gi] = "999.9"
                     gaps[ln_] += 1
+                # the mean temperature missing on isolated single days (the loader closes them from the neighbours)
+                ti = hdr.index("tavg")
+                for st in range(40, min(len(rows), 1800) - 10, 97):
+                    rows[st][ti] = "999.9"
                 info[fn] = gaps
                 out = lines[:2] + [",".join(r) for r in rows]
+                # the same gaps with a NEGATIVE none value (WeatherNoneValue=-99.9 on the batch line)
+                os.makedirs(os.path.join(ex, "weather", "radgapneg"), exist_ok=True)
+                open(os.path.join(ex, "weather", "radgapneg", fn), "w").write(
+                    "\n".join(lines[:2] + [",".join("-99.9" if v == "999.9" else v for v in r) for r in rows]) + "\n")
             else:
                 hdr2 = list(hdr); hdr2[gi] = "sunhours"
                 units = lines[1].split(","); units[gi] = "h"
@@ -272,6 +281,28 @@ def plan_runs(ctx):
         plan.append({"line": "project=%s WeatherFolder=%s fcode=%s %s Altitude=73 Latitude=52.6732 poligonID=29872 EndDate=%s resultfolder=R/c19_%d "
                              "@every=%d @weather-ref=csv" % (proj, folder, fcode, rest, end, len(plan), 60 if ctx.thorough else 24),
                      "soil": None, "weather": folder})
+    # configuration sweep: ONE key (or one pair of switches) away from the project's configuration per run
+    pz = os.path.join(ex, "project", "zuc", "poly_zuc.txt")        # groundwater oscillating inside the profile
+    ptxt = open(pz).read()
+    open(pz, "w").write(re.sub(r"(?m)^(10001\s+\S+\s+\S+\s+)\S+(\s+)\S+", r"\g<1>7\g<2>13", ptxt))
+    e1 = "project=ex1 WeatherFolder=historical soilId=075 fcode=109_120 plotNr=10001 Altitude=73 Latitude=52.6732 poligonID=29872"
+    e1b = "project=ex1 WeatherFolder=historical soilId=160 fcode=109_121 plotNr=10002 Altitude=73 Latitude=52.6728 poligonID=29873"
+    sweep = [(e1 + " AutoIrrigation=1", "EN", 1981, True, "AutoIrrigation=1"),
+             ("project=bulk WeatherFolder=historical soilId=002 fcode=109_120 plotNr=10001 Altitude=73 Latitude=52.6732 poligonID=29872 AutoIrrigation=0", "EN", 1981, True, "AutoIrrigation=0"),
+             (e1 + " InitSelection=1", "EN", 1981, True, "InitSelection=1"), (e1 + " InitSelection=2", "EN", 1981, True, "InitSelection=2"),
+             ("project=rue WeatherFolder=historical fcode=109_121 plotNr=10002 soilId=001 Altitude=46 Latitude=52.6431 poligonID=30169", "DE", 1981, False, "WeatherFileFormat 2 (.w6d)"),
+             ("project=MUN WeatherFolder=MUN soilId=001 fcode=NEU plotNr=00001 Altitude=55 Latitude=54.00 poligonID=MUN parameter=./parameter StartYear=2009", "DE0531", 2011, False,
+              "WeatherFileFormat 0 (one file per year), StartYear=2009"),
+             ("project=zuc WeatherFolder=historical fcode=109_120 plotNr=10001 soilId=001 Altitude=73 Latitude=52.6732 poligonID=29872", "DE", 1981, True,
+              "polygon-file groundwater 7..13 dm inside the profile"),
+             (e1.replace("WeatherFolder=historical", "WeatherFolder=radgapneg") + " WeatherNoneValue=-99.9", "EN", 1981, True, "WeatherNoneValue=-99.9 with missing radiation / tavg"),
+             (e1 + " AnnualAverageTemperature=6.1 @session=1", "EN", 1981, True, "two runs in one session (1/2)"), (e1b + " @session=1", "EN", 1981, True, "two runs in one session (2/2)"),
+             (e1b + " @session=2", "EN", 1981, True, "two runs in one session, other order (1/2)"),
+             (e1 + " AnnualAverageTemperature=6.1 @session=2", "EN", 1981, True, "two runs in one session, other order (2/2)")]
+    for base, fmt, ey, ref, why in sweep:
+        end = "3105%d" % ey if fmt == "DE0531" else ("1231%d" if fmt == "EN" else "3112%d") % ey
+        plan.append({"line": "%s EndDate=%s resultfolder=R/c19_%d @every=%d%s" % (base, end, len(plan), 60 if ctx.thorough else 30, " @weather-ref=csv" if ref else ""),
+                     "soil": None, "weather": "radgapneg" if "radgapneg" in base else "historical", "sweep": why})
     # lower boundary: TBASE is the CONFIGURED annual mean temperature with automatic sowing on and off
     write_automan(ex, rnd)
     tb = [("ex1", "EN", "109_120", "soilId=075 plotNr=10001 AutoSowingHarvest=1", None),
@@ -438,6 +469,9 @@ def correspond(ctx):
         c.mismatches.append({"kind": "coverage-missing", "what": "no traced run on a weather file with permuted / name-containing columns"})
     if not any(r_.get("radiation_missing_days", 0) > 0 for r_ in runs):
         c.mismatches.append({"kind": "coverage-missing", "what": "no traced day with missing global radiation"})
+    ctx.extra["configuration_sweep"] = [{"what": plan[r_["line"]]["sweep"], "days": r_["days"], "run_error": r_["err"][:80],
+                                         "days_checked_against_weather_file": r_.get("weather_ref_days", 0), "envelope_failed": r_.get("failed")}
+                                        for r_ in runs if plan[r_["line"]].get("sweep")]
     ctx.extra["traced_runs"] = len(runs)
     ctx.extra["traced_days"] = sum(r_["days"] for r_ in runs)
     ctx.extra["traced_bd_range"] = [min([r_.get("minbd", 9) for r_ in runs] or [0]), max([r_.get("maxbd", 0) for r_ in runs] or [0])]
